@@ -348,3 +348,13 @@ Theorem funnel_drops_cancel_last_refuted :
 Proof.
   exists SchS, {| o_p := []; o_s := []; o_a := [KReal; KCancel]; o_c := [] |}. vm_compute. repeat split.
 Qed.
+
+(** collectErrors drops no failure: the combined error is non-nil iff some
+    result is, whatever the completion order and the number of nil results
+    before it. *)
+Theorem collect_errors_keeps_failures rs :
+  exit_nonzero (collect_errors rs) = existsb exit_nonzero rs.
+Proof.
+  unfold collect_errors. induction rs as [|r rs IH]; cbn; [reflexivity|].
+  fold (combine r (List.concat rs)). rewrite exit_nonzero_app, IH. reflexivity.
+Qed.
